@@ -1031,6 +1031,10 @@ void mon_keepalive(const Run& run, const Ix&, Verdicts& v, vu::Result& res) {
                         if (e.t - rb != want) v.add("C12", e.t - rb < want ? "C12:read-timeout-early" : "C12:read-timeout-late",
                                                     "connection " + std::to_string(c.id) + " (keep-alive " + std::to_string(K) + " s): read abandoned after " + std::to_string((e.t - rb) / 1e9) + " s of silence, expected " + std::to_string(want / 1e9));
                     }
+                } else if (rb >= 0 && e.t - rb > KK * 3 / 2 + 1 * MS && rb + KK * 3 / 2 < end - 1 * MS) {
+                    // the read did end (data at last, or the stream was closed for another reason), but only after it had waited
+                    // longer than 1.5*K without a byte
+                    v.add("C12", "C12:no-read-timeout", "connection " + std::to_string(c.id) + " (keep-alive " + std::to_string(K) + " s): a read started at " + std::to_string(rb / 1e9) + "s waited " + std::to_string((e.t - rb) / 1e9) + " s without a byte and was not abandoned after 1.5*K");
                 }
                 rb = -1;
             }
